@@ -410,7 +410,7 @@ func drivers(quick bool) []conc.Driver {
 			}
 		}
 	}
-	// the size ladder of the chunk count: 2^k-1, 2^k, 2^k+1 one-element chunks on two and three workers,
+	// the size ladder of the chunk count: 2^k-1, 2^k, 2^k+1 (also 3*2^k, 10^j-1, 10^j, 10^j+1, 5*10^j) one-element chunks on two and three workers,
 	// ONE schedule each (the canonical one) - the number of schedules of such a run is beyond enumeration;
 	// what these drivers decide is only that the calls return and the chunks partition the input there
 	topChunks := 513
